@@ -731,6 +731,7 @@ fn c03_o7_size_boundaries() {
 }
 
 //@ ob: C15.O3b
+//@ also: C03
 //@ tier: quick
 //@ cap: 800
 //@ rss: 8
@@ -789,25 +790,7 @@ fn c15_o3b_token_lifetime() {
 }
 
 
-//@ ob: C15.O3c
-//@ tier: quick
-//@ cap: 800
-//@ rss: 8
-//@ time: 620
-//@ standins: tracing lru vcoll
-//@ desc: token expiry on a node that keeps receiving requests of any kind: a token issued with a get_peers reply at t0, followed by two further requests that carry no token (pings) more than 300 s apart, is refused with 203 when presented afterwards -- the lazy rotation runs on every handled request, so the issuing secret is in neither slot after two rotation periods
-//@ bounds: symbolic secrets and fresh random bytes (assumed to differ from the issuing secret); gaps d1, d2 symbolic in 301..=1000 s, d3 symbolic <= 1000 s; 4 requests (get_peers, ping, ping, announce_peer); unwind 26
-//@ stubs: other arms' validators -> flagged cuts; RoutingTable::closest -> probe; Instant::now; getrandom::fill
-//@ functions: Server::handle_request (lazy rotation on every request kind), Tokens::{should_update,rotate,validate,generate_token}
-#[kani::proof]
-#[kani::stub(crate::common::mutable::MutableItem::from_dht_message, mh::from_dht_message_cut)]
-#[kani::stub(crate::common::signed_announce::SignedAnnounce::from_dht_request, sh::from_dht_cut)]
-#[kani::stub(crate::common::immutable::validate_immutable, vi_cut)]
-#[kani::stub(crate::common::routing_table::RoutingTable::closest, closest_probe)]
-#[kani::stub(std::time::Instant::now, clock::now)]
-#[kani::stub(getrandom::fill, rnd::fill)]
-#[kani::unwind(26)]
-fn c15_o3c_token_expires_under_any_traffic() {
+fn token_expiry(two_pings: bool) {
     clock::set(0);
     let mut server = small_server(1, true);
     let fresh: [u8; 60] = kani::env();
@@ -840,12 +823,22 @@ fn c15_o3c_token_expires_under_any_traffic() {
     let d1: u64 = kani::any();
     let d2: u64 = kani::any();
     let d3: u64 = kani::any();
-    kani::assume(d1 > 300 && d1 <= 1000 && d2 > 300 && d2 <= 1000 && d3 <= 1000);
+    // either two pings more than 300 s apart, or one ping and then silence for more than 300 s: in
+    // the second case the put itself is the request that triggers the second rotation, and it must
+    // be checked against the rotated secrets
+    kani::assume(d1 > 300 && d1 <= 1000 && d2 > 300 && d2 <= 1000 && d3 <= 1000 && (two_pings || d3 > 300));
     clock::set(d1);
     let p1 = server.handle_request(&rt, &rt, other, RequestSpecific { requester_id: Id::from([3u8; 20]), request_type: RequestTypeSpecific::Ping });
-    clock::set(d1 + d2);
-    let p2 = server.handle_request(&rt, &rt, other, RequestSpecific { requester_id: Id::from([3u8; 20]), request_type: RequestTypeSpecific::Ping });
-    clock::set(d1 + d2 + d3);
+    let mut t_put = d1 + d3;
+    let mut p2_ok = true;
+    if two_pings {
+        clock::set(d1 + d2);
+        t_put = d1 + d2 + d3;
+        let p2 = server.handle_request(&rt, &rt, other, RequestSpecific { requester_id: Id::from([3u8; 20]), request_type: RequestTypeSpecific::Ping });
+        p2_ok = p2.is_some();
+        std::mem::forget(p2);
+    }
+    clock::set(t_put);
     let r1 = server.handle_request(&rt, &rt, from, RequestSpecific {
         requester_id: Id::from([2u8; 20]),
         request_type: RequestTypeSpecific::Put(PutRequest { token, put_request_type: PutRequestSpecific::AnnouncePeer(AnnouncePeerRequestArguments { info_hash, port: 1, implied_port: None }) }),
@@ -862,14 +855,57 @@ fn c15_o3c_token_expires_under_any_traffic() {
     if !collides {
         assert!(code_of(&r1) == Some(203), "C15.O3 a token older than two rotation periods is refused on a node that keeps receiving requests");
     }
-    assert!(p1.is_some() && p2.is_some(), "C18.O1 server mode answers through the server");
+    assert!(p1.is_some() && p2_ok, "C18.O1 server mode answers through the server");
     assert!(!cut_reached(), "CUT: another arm or random bytes reached");
-    kani::cover!(!collides && d3 == 0);
+    kani::cover!(!collides && (d3 == 0 || !two_pings));
     kani::cover!(code_of(&r1) == Some(203));
     std::mem::forget(r0);
     std::mem::forget(r1);
     std::mem::forget(p1);
-    std::mem::forget(p2);
     std::mem::forget(server);
     std::mem::forget(rt);
+}
+
+//@ ob: C15.O3c
+//@ also: C03
+//@ tier: quick
+//@ cap: 800
+//@ rss: 8
+//@ time: 620
+//@ standins: tracing lru vcoll
+//@ desc: token expiry on a node that keeps receiving requests of any kind: a token issued with a get_peers reply at t0, followed by two further requests that carry no token (pings) more than 300 s apart, is refused with 203 when presented afterwards
+//@ bounds: symbolic secrets and fresh random bytes (assumed to differ from the issuing secret); gaps d1, d2 symbolic in 301..=1000 s, d3 symbolic <= 1000 s; 4 requests (get_peers, ping, ping, announce_peer); unwind 26
+//@ stubs: other arms' validators -> flagged cuts; RoutingTable::closest -> probe; Instant::now; getrandom::fill
+//@ functions: Server::handle_request (lazy rotation on every request kind), Tokens::{should_update,rotate,validate,generate_token}
+#[kani::proof]
+#[kani::stub(crate::common::mutable::MutableItem::from_dht_message, mh::from_dht_message_cut)]
+#[kani::stub(crate::common::signed_announce::SignedAnnounce::from_dht_request, sh::from_dht_cut)]
+#[kani::stub(crate::common::immutable::validate_immutable, vi_cut)]
+#[kani::stub(crate::common::routing_table::RoutingTable::closest, closest_probe)]
+#[kani::stub(std::time::Instant::now, clock::now)]
+#[kani::stub(getrandom::fill, rnd::fill)]
+#[kani::unwind(26)]
+fn c15_o3c_token_expires_under_any_traffic() {
+    token_expiry(true);
+}
+
+//@ ob: C15.O3d
+//@ also: C03
+//@ tier: thorough
+//@ cap: 2400
+//@ standins: tracing lru vcoll
+//@ desc: token expiry when the put itself triggers the second rotation: a token issued with a get_peers reply at t0, one later request (a ping) more than 300 s after it, then more than 300 s of silence: the put presenting the old token is refused with 203 -- the token is checked against the secrets as they are AFTER the rotation its own arrival causes, so an idle node does not honour arbitrarily old tokens
+//@ bounds: symbolic secrets and fresh random bytes (assumed to differ from the issuing secret); gaps d1, d2 symbolic in 301..=1000 s, d3 symbolic <= 1000 s; 4 requests (get_peers, ping, ping, announce_peer); unwind 26
+//@ stubs: other arms' validators -> flagged cuts; RoutingTable::closest -> probe; Instant::now; getrandom::fill
+//@ functions: Server::handle_request (lazy rotation on every request kind), Tokens::{should_update,rotate,validate,generate_token}
+#[kani::proof]
+#[kani::stub(crate::common::mutable::MutableItem::from_dht_message, mh::from_dht_message_cut)]
+#[kani::stub(crate::common::signed_announce::SignedAnnounce::from_dht_request, sh::from_dht_cut)]
+#[kani::stub(crate::common::immutable::validate_immutable, vi_cut)]
+#[kani::stub(crate::common::routing_table::RoutingTable::closest, closest_probe)]
+#[kani::stub(std::time::Instant::now, clock::now)]
+#[kani::stub(getrandom::fill, rnd::fill)]
+#[kani::unwind(26)]
+fn c15_o3d_token_expires_when_put_rotates() {
+    token_expiry(false);
 }
